@@ -244,9 +244,30 @@ func mayBeNilPointer(v ssa.Value, depth int, seen map[ssa.Value]bool) bool {
 	case *ssa.Extract:
 		if call, ok := x.Tuple.(*ssa.Call); ok {
 			if cf := call.Call.StaticCallee(); cf != nil && firstParty(cf) && cf.Blocks != nil {
+				// (whole, complete := push(..); if complete { use(whole) }): every use of this result sits behind tests of
+				// boolean results of the same call; the returns that hand back the other truth value do not count
+				guard := siblingGuards(x, call)
 				for _, b := range cf.Blocks {
 					if ret, ok := b.Instrs[len(b.Instrs)-1].(*ssa.Return); ok && x.Index < len(ret.Results) {
-						for _, rv := range retResults(ret)[x.Index] {
+						rr := retResults(ret)
+						excluded := false
+						for gi, want := range guard {
+							if gi >= len(rr) || len(rr[gi]) == 0 {
+								continue
+							}
+							all := true
+							for _, v := range rr[gi] {
+								k, isC := v.(*ssa.Const)
+								if !isC || k.Value == nil || (k.Value.ExactString() == "true") == want {
+									all = false
+								}
+							}
+							excluded = excluded || all
+						}
+						if excluded {
+							continue
+						}
+						for _, rv := range rr[x.Index] {
 							if mayBeNilPointer(rv, depth+1, seen) {
 								return true
 							}
@@ -257,6 +278,51 @@ func mayBeNilPointer(v ssa.Value, depth int, seen map[ssa.Value]bool) bool {
 		}
 	}
 	return false
+}
+
+// siblingGuards: the truth values of boolean results of `call` that every use of result `ex` of the same call lies behind
+// (the intersection over the uses of ex of the tests that dominate them).
+func siblingGuards(ex *ssa.Extract, call *ssa.Call) map[int]bool {
+	if ex.Referrers() == nil {
+		return nil
+	}
+	var common map[int]bool
+	for _, r := range *ex.Referrers() {
+		if _, dbg := r.(*ssa.DebugRef); dbg {
+			continue
+		}
+		here := map[int]bool{}
+		for d := r.Block(); d != nil && d.Idom() != nil; d = d.Idom() {
+			id := d.Idom()
+			if len(d.Preds) != 1 || d.Preds[0] != id {
+				continue
+			}
+			cond, neg, ok := branchCond(id, d)
+			if !ok {
+				continue
+			}
+			for {
+				u, isNot := cond.(*ssa.UnOp)
+				if !isNot || u.Op != token.NOT {
+					break
+				}
+				cond, neg = u.X, !neg
+			}
+			if e2, ok := cond.(*ssa.Extract); ok && e2.Tuple == ssa.Value(call) && isBoolType(e2.Type()) {
+				here[e2.Index] = !neg
+			}
+		}
+		if common == nil {
+			common = here
+		} else {
+			for k, v := range common {
+				if hv, ok := here[k]; !ok || hv != v {
+					delete(common, k)
+				}
+			}
+		}
+	}
+	return common
 }
 
 // R31: replies and arguments keep "empty" and "null" apart, and no reply is a typed nil.
